@@ -17,6 +17,8 @@ RULE = ('case = (acyclic hard/soft/both DAG over 1-7 probe tasks, independent ou
         'FAILED/SKIPPED, else DONE/FAILED by the outcome), execution counters, every status a '
         'TaskStatus, equality of the status maps across schedules. non-trivial = a failing task with '
         'a dependent, or a malformed return; distinct = (graph, outcomes)')
+RULE_ADDENDA = (' Decorations shared by the scheduler checks (vlib/schedcase.py): generated insertion order, nested graphs as nodes, a top-level key shared by all updates, back-end first used on another graph, spurious wake-ups, graphs sorted before their last edits, reloaded / resumed initial environment, Scheduler scheduled again, tasks returning their whole own section, updates that are mappings but not dicts, statuses WAITING / PENDING / 1 / 2.0, a well-formed update followed by an entry that can never be merged, a task that schedules a graph of its own with default back-ends (overlapping calls), and (C02, C03) four wide graphs of 300-2100 ready tasks.')
+RULE = RULE + RULE_ADDENDA
 ASSUMPTIONS = ['empty initial environment; acyclic graphs',
                'runs that do not come back (deadlock) are recorded here and judged by C03',
                'tasks returning WAITING/PENDING/SKIPPED for themselves are not generated (nothing '
